@@ -99,6 +99,8 @@ public:
         }
 
         std::size_t position(Handle h) {
+            //_regs can be reallocated by a concurrent subscribe, so it must be read under the lock
+            std::lock_guard _(_mx);
             return _regs[h]._pos;
         }
 
